@@ -109,7 +109,7 @@ fn recovery() -> Vec<HOp> {
 }
 
 fn units(_tier: &str) -> usize {
-    grid().len() + dup_cases().len() + NG.len() + dir_cases().len() + 2
+    grid().len() + dup_cases().len() + NG.len() + dir_cases().len() + 6
 }
 
 // ---------------------------------------------------------------- a rename that really fails
@@ -190,7 +190,95 @@ fn run_rename_dir(mode: ModeK) -> Result<usize, Fail> {
     Ok(reported)
 }
 
+/// Timestamp namings with a current infix, restart without append: the start renames the
+/// existing current file to a timestamp name. With a basename of 235 characters the current
+/// file's name is legal but every timestamp name is too long, so that rename really fails
+/// (ENAMETOOLONG). W W [restart without append] W: the failure is reported (by build() or on the
+/// error channel), and the records of the first run are still there - a start that cannot move
+/// the old current file away must not truncate it.
+fn run_long_name(naming: NamingK, mode: ModeK) -> Result<usize, Fail> {
+    let env = Env::new("c19l");
+    env.enter();
+    let mut cfg = Cfg::rot(CritK::Size(1000), naming, CleanK::Never);
+    cfg.mode = mode;
+    cfg.parts.basename = Some("b".repeat(235));
+    let mut h = Hist::new(&env, cfg.clone());
+    for _ in 0..2 {
+        if let Err(e) = h.apply(HOp::W(20)) {
+            return Err(Fail {
+                clause: "run-error",
+                detail: format!("first run: {e:?}"),
+            });
+        }
+    }
+    let first: Vec<Vec<u8>> = h.accepted.clone();
+    let errs0 = env.errlines().len();
+    let mut reported = 0;
+    match h.apply(HOp::Restart(false)) {
+        Err(_) => reported += 1,
+        Ok(()) => {
+            if h.apply(HOp::W(20)).is_err() {
+                reported += 1;
+            }
+        }
+    }
+    reported += env.errlines().len() - errs0;
+    h.stop();
+    drop(h);
+    env.leave();
+    let scan = family::scan(&env.dir, &cfg.parts, None, cfg.naming(), &[]);
+    let stream = scan.stream(&env.dir).map_err(|e| Fail {
+        clause: "run-error",
+        detail: e,
+    })?;
+    let (found, _) = family::split_lines(&stream, "\n");
+    for l in &first {
+        let t = String::from_utf8_lossy(&l[..l.len() - 1]).to_string();
+        if !found.contains(&t) {
+            return Err(Fail {
+                clause: "unrelated-record-lost",
+                detail: format!("record {t:?} of the first run is gone after a restart whose rename of the current file failed; files {:?} hold {found:?}", scan.names().iter().map(|n| format!("..{}", &n[n.len().saturating_sub(30)..])).collect::<Vec<_>>()),
+            });
+        }
+    }
+    if reported == 0 {
+        return Err(Fail {
+            clause: "not-reported",
+            detail: "the start could not rename the current file (name too long) but neither build() nor the error channel said so".into(),
+        });
+    }
+    Ok(reported)
+}
+
 fn run_rename_dir_unit(idx: usize, unit: usize, out: &mut Out) {
+    if idx >= 2 {
+        let naming = [NamingK::Timestamps, NamingK::CustomCur][(idx - 2) / 2];
+        let mode = [ModeK::Direct, ModeK::BufDont(16)][idx % 2];
+        let case = json!({"unit": unit, "rename_dir": idx});
+        let cause = format!("rename-target-name-too-long/{}/{}", naming.short(), super::c08::mode_class(mode));
+        let mut vs = Vec::new();
+        for _ in 0..2 {
+            out.evaluations += 1;
+            out.transitions += 4;
+            match run_isolated(Duration::from_secs(30), move || run_long_name(naming, mode)) {
+                Ran::Done(Ok(n)) => {
+                    out.outcome(format!("rename really fails (name too long): reports={}", n.min(9)));
+                    break;
+                }
+                Ran::Done(Err(f)) => vs.push(Violation::new(f.clause, cause.clone(), format!("{naming:?}, basename of 235 characters, mode {mode:?}; history W W [restart without append] W\n  {}", f.detail), case.clone())),
+                Ran::Panicked(m) => vs.push(Violation::new("panic", cause.clone(), m, case.clone())),
+                Ran::Hung => vs.push(Violation::new("hang", cause.clone(), String::new(), case.clone())),
+            }
+        }
+        out.state(&(unit, "long_name"));
+        out.nontrivial(&(unit, "long_name"));
+        if vs.len() == 2 && vs[0].key() == vs[1].key() {
+            out.violation(vs.remove(0));
+        } else if !vs.is_empty() {
+            out.violation(Violation::new("nondeterministic", "replay-diverged", vs[0].detail.clone(), case));
+        }
+        return;
+    }
     let mode = [ModeK::Direct, ModeK::BufDont(16)][idx % 2];
     let case = json!({"unit": unit, "rename_dir": idx});
     let cause = format!("rename-target-is-a-directory/Num/{}", super::c08::mode_class(mode));
